@@ -1,3 +1,133 @@
-From SB3V Require Import Gen.Frag_offpolicy Model.OffPolicyCollect.
-Theorem C04_stub : True. Proof. exact I. Qed.
-Print Assumptions C04_stub.
+(* C04 - off-policy collection stores each real transition once, in order, with the true successor.
+   Only statements: every proof is [exact <lemma>], followed by Print Assumptions. *)
+From Coq Require Import ZArith QArith Qminmax List Bool.
+From SB3V Require Import Model.Script Gen.Frag_offpolicy Model.OnPolicyCollect Proofs.OnPolicyCollectProofs
+  Model.OffPolicyCollect Proofs.OffPolicyCollectProofs.
+From SB3V Require Refuted.C04_vecnorm.   (* the VecNormalize terminal-observation witness is rebuilt with every check *)
+Import ListNotations.
+Local Open Scope Z_scope.
+
+(* For every script, action kind, oracle (unscaled actions, noise) and number of steps: the g-th replay-buffer add
+   of an env column holds the observation the agent acted on (reset observation or what the previous step returned),
+   as next observation the g-th step's own observation, the scaled / noised / clipped action, the raw reward,
+   done and timeout as computed from the env's signals, and the env received the rescaled action. *)
+Theorem C04_add_log : forall ak sc os st g o,
+  nth_error os g = Some o ->
+  nth_error (snd (off_collect ak sc st os)) g = Some (spec_trans ak sc st g o).
+Proof. exact off_collect_trans. Qed.
+Print Assumptions C04_add_log.
+
+(* exactly once each: as many adds as env steps *)
+Theorem C04_one_add_per_step : forall ak sc os st, length (snd (off_collect ak sc st os)) = length os.
+Proof. exact off_collect_length. Qed.
+Print Assumptions C04_one_add_per_step.
+
+(* the successor stored is the step's own observation - the terminal observation when the episode ended, never
+   the auto-reset observation - and the flags / reward are the environment's *)
+Theorem C04_true_successor : forall sc c,
+  stored_next (snd (vstep1 sc c)) = st_tag (snd (env_step sc c)).
+Proof. exact stored_next_is_step_observation. Qed.
+Print Assumptions C04_true_successor.
+
+Theorem C04_flags_and_reward : forall sc c,
+  let st := snd (env_step sc c) in
+  let o := snd (vstep1 sc c) in
+  vo_done o = (st_term st || st_trunc st)%bool /\ vo_tl o = (st_trunc st && negb (st_term st))%bool /\ vo_r4 o = st_r4 st.
+Proof. exact stored_flags. Qed.
+Print Assumptions C04_flags_and_reward.
+
+(* collect_rollouts / learn (train_freq in steps or episodes, total_timesteps, counter reset or continuation, env reset)
+   only decide how many steps are taken: the adds of a learn() are the log of a prefix of the oracle, the rest is untouched,
+   and num_timesteps advanced by n_envs per add *)
+Theorem C04_learn_log : forall ak sc ne tf c os nt s l,
+  off_learn ak sc ne tf c os nt = (s, l) ->
+  let os0 := if oc_env_reset c then os_reset sc os else os in
+  exists k, (k <= length (oc_orcs c))%nat /\
+    l = snd (off_collect ak sc os0 (firstn k (oc_orcs c))) /\
+    l_os s = fst (off_collect ak sc os0 (firstn k (oc_orcs c))) /\
+    l_orcs s = skipn k (oc_orcs c) /\
+    l_nt s = (if oc_reset c then 0 else nt) + Z.of_nat k * ne.
+Proof. exact off_learn_log. Qed.
+Print Assumptions C04_learn_log.
+
+(* consecutive collections continue one another (state carried across rollouts and learn() calls) *)
+Theorem C04_collect_app : forall ak sc a b st,
+  off_collect ak sc st (a ++ b) =
+  (fst (off_collect ak sc (fst (off_collect ak sc st a)) b),
+   snd (off_collect ak sc st a) ++ snd (off_collect ak sc (fst (off_collect ak sc st a)) b)).
+Proof. exact off_collect_app. Qed.
+Print Assumptions C04_collect_app.
+
+(* ---- scaling algebra (over Q; float32 rounding is not modelled) ---- *)
+Theorem C04_unscale_scale : forall lo hi a, (~ hi == lo -> unscale lo hi (scale lo hi a) == a)%Q.
+Proof. exact unscale_scale. Qed.
+Print Assumptions C04_unscale_scale.
+
+Theorem C04_scale_unscale : forall lo hi x, (~ hi == lo -> scale lo hi (unscale lo hi x) == x)%Q.
+Proof. exact scale_unscale. Qed.
+Print Assumptions C04_scale_unscale.
+
+Theorem C04_unscale_in_bounds : forall lo hi x, (lo <= hi -> -1 <= x <= 1 -> lo <= unscale lo hi x <= hi)%Q.
+Proof. exact unscale_in_bounds. Qed.
+Print Assumptions C04_unscale_in_bounds.
+
+Theorem C04_scale_in_unit : forall lo hi a, (lo < hi -> lo <= a <= hi -> -1 <= scale lo hi a <= 1)%Q.
+Proof. exact scale_in_unit. Qed.
+Print Assumptions C04_scale_in_unit.
+
+Theorem C04_buffer_action_in_unit_noise : forall lo hi u nz,
+  Forall in_unit (buffer_action (ABox lo hi) (mkO u (Some nz))).
+Proof. exact buffer_action_in_unit_noise. Qed.
+Print Assumptions C04_buffer_action_in_unit_noise.
+
+Theorem C04_buffer_action_in_unit_plain : forall lo hi u,
+  Forall3 (fun a l h => (l < h /\ l <= a <= h)%Q) u lo hi ->
+  Forall in_unit (buffer_action (ABox lo hi) (mkO u None)).
+Proof. exact buffer_action_in_unit_plain. Qed.
+Print Assumptions C04_buffer_action_in_unit_plain.
+
+Theorem C04_env_action_in_bounds : forall ba lo hi,
+  Forall2 Qle lo hi -> length ba = length lo -> Forall in_unit ba ->
+  Forall3 (fun x l h => (l <= x <= h)%Q) (off_env_action (ABox lo hi) ba) lo hi.
+Proof. exact off_env_action_in_bounds. Qed.
+Print Assumptions C04_env_action_in_bounds.
+
+Theorem C04_env_action_roundtrip : forall lo hi u,
+  Forall3 (fun a l h => ~ (h == l)%Q) u lo hi ->
+  Forall2 Qeq (off_env_action (ABox lo hi) (buffer_action (ABox lo hi) (mkO u None))) u.
+Proof. exact off_env_action_roundtrip. Qed.
+Print Assumptions C04_env_action_roundtrip.
+
+(* ---- the model's formulas are the statements regenerated from the source ---- *)
+Theorem C04_fragments_scaling : forall lo hi a s z,
+  (off_scale lo hi a == scale lo hi a)%Q /\ (off_unscale lo hi a == unscale lo hi a)%Q /\
+  (off_noise_clip s z == clip1 (s + z))%Q.
+Proof. exact (fun lo hi a s z => conj (frag_scale lo hi a) (conj (frag_off_unscale lo hi a) (frag_noise_clip s z))). Qed.
+Print Assumptions C04_fragments_scaling.
+
+Theorem C04_fragment_terminal_guard : forall o,
+  stored_next o = if off_use_terminal (vo_done o) (has_term o) then match vo_term o with Some t => t | None => vo_obs o end else vo_obs o.
+Proof. exact frag_use_terminal. Qed.
+Print Assumptions C04_fragment_terminal_guard.
+
+Theorem C04_fragments_loops : forall nt ne steps eps total f,
+  off_count nt ne steps = (nt + ne, steps + 1) /\ off_episode_inc eps = eps + 1 /\
+  off_learn_guard nt total = (nt <? total) /\
+  off_more_step steps f = off_more (TfStep f) steps eps /\ off_more_episode eps f = off_more (TfEpis f) steps eps.
+Proof. exact frag_off_counters. Qed.
+Print Assumptions C04_fragments_loops.
+
+(* ---- non-vacuity ---- *)
+Definition ex4_sc : script :=
+  [mk_episode 10 0 [mk_sstep 11 4 false false 0; mk_sstep 12 (-8) false true 0];
+   mk_episode 20 0 [mk_sstep 21 8 true true 0];
+   mk_episode 30 0 [mk_sstep 31 0 true false 0]].
+
+Example C04_ex :
+  let os0 := os_reset ex4_sc ostate0 in
+  let r := off_learn (ABox [-2] [6])%Q ex4_sc 1 (TfEpis 1)
+             (mkOC 3 true true [mkO [2%Q] None; mkO [6%Q] (Some [5%Q]); mkO [0%Q] None; mkO [1%Q] None; mkO [1%Q] None]) ostate0 0 in
+  map (fun t => (t_obs t, t_next t, t_r4 t, t_done t, t_timeout t, map Qred (t_act t), map Qred (t_envact t))) (snd r) =
+  [(10, 11, 4, false, false, [0%Q], [2%Q]); (11, 12, -8, true, true, [1%Q], [6%Q]); (20, 21, 8, true, false, [(-1 # 2)%Q], [0%Q])] /\
+  length (l_orcs (fst r)) = 2%nat /\ l_nt (fst r) = 3 /\ l_exh (fst r) = false.
+Proof. vm_compute. repeat split; reflexivity. Qed.
